@@ -4,8 +4,10 @@ go 1.21
 
 require (
 	github.com/anishathalye/porcupine v1.3.0
+	github.com/dgryski/go-spooky v0.0.0-20170606183049-ed3d087f40e2
 	github.com/facebookincubator/dns/dnsrocks v0.0.0
 	github.com/miekg/dns v1.1.50
+	github.com/repustate/go-cdb v0.0.0-20160430174706-6a418fad95e2
 )
 
 require (
